@@ -145,6 +145,20 @@ def run(R):
     from .c08 import active_own
     active_own(R, ro, "C18.STACK.ACTIVE-OWN")
     common.active_task_pair(R, ro, "C18.STACK.ACTIVE-PAIR")
+    fs = repo.fn("debug.format_asynq_stack")
+    reads = [x for x in q.scope_nodes(fs.node) if isinstance(x, ast.Attribute) and x.attr == "active_task" and isinstance(x.ctx, ast.Load)]
+    gat = [c for c in q.calls(fs.node) if (q.call_name(c) or "").split(".")[-1] == "get_active_task"]
+    okfresh = bool(reads or gat) and not any(isinstance(x, (ast.Global, ast.Nonlocal)) for x in ast.walk(fs.node))
+    for x in reads:
+        rv = x.value
+        if isinstance(rv, ast.Name):
+            vals = [v for k, v in common.assigned_values(fs.node, rv.id) if k == "expr"]
+            rv = vals[0] if len(vals) == 1 else None
+        okfresh = okfresh and isinstance(rv, ast.Call) and (q.call_name(rv) or "").split(".")[-1] == "get_scheduler" and not rv.args
+    R.check(okfresh, "C18.STACK", fs.qualname, R.site(fs),
+            "format_asynq_stack asks the calling thread's scheduler for its active task at every call",
+            "format_asynq_stack does not read the active task from get_scheduler() at call time (a remembered scheduler belongs to whichever thread / "
+            "reset generation asked first: inside a task elsewhere the stack comes back as None)")
     for f in repo.all_functions():
         for recv, attr, node in q.attr_stores(f.node):
             if attr == "creator" and recv is not None:
@@ -206,6 +220,16 @@ def run(R):
                 "throw() is called with the exception alone or with an explicit traceback",
                 "throw(%s) replaces the exception's traceback with nothing: the frames of whatever raised it (a batch flush, a value provider) are lost and the "
                 "traceback ends at the yield" % ", ".join(args))
+    # the stored (glued) traceback is re-installed whenever a future's error is raised to a caller
+    rie = ro.FutureBase.methods.get("raise_if_error")
+    R.need(rie is not None, "anchor vanished: FutureBase.raise_if_error")
+    rr = [c for c in q.calls(rie.node) if (q.call_name(c) or "").endswith("reraise") and [q.src(a) for a in c.args] == ["self._error"]]
+    wt = [n for n in q.scope_nodes(rie.node) if isinstance(n, ast.Raise) and n.exc is not None and "with_traceback" in q.src(n.exc) and "_traceback" in q.src(n.exc)]
+    plain = [n for n in q.scope_nodes(rie.node) if isinstance(n, ast.Raise) and n.exc is not None and "with_traceback" not in q.src(n.exc)]
+    R.check(bool(rr or wt) and not plain, "C18.GLUE", rie.qualname, R.site(rie),
+            "raise_if_error raises the stored error with its stored traceback (qcore's reraise)",
+            "raise_if_error raises the stored error with `raise`: the traceback is whatever the object accumulated the last time it propagated, so a second "
+            "value() shows the frames of the first caller spliced in front of the task levels")
     # creator chain
     tb = ro.AsyncTask.methods.get("traceback")
     R.need(tb is not None, "anchor vanished: AsyncTask.traceback")
@@ -268,6 +292,38 @@ def run(R):
     R.check(p1 is None and p2 is None and fexc and fonly, "C18.FORMAT", fe.qualname + ":arms", R.site(fe),
             "an error with a traceback is formatted with it, an exception without one with format_exception_only, anything else without either",
             "format_error no longer distinguishes 'has a traceback' / 'exception without traceback' / 'anything else'")
+    # <error>._traceback is read only where the attribute is known to exist: behind hasattr alone, or as the fallback of an explicit
+    # tb (`tb or error._traceback`) inside the arm entered for "has the attribute OR an explicit tb was given"
+    tbp = q.param_names(fe.node)[1] if len(q.param_names(fe.node)) > 1 else "tb"
+
+    def only_attr(nd):
+        # edges that make the read safe: hasattr(error, '_traceback') holds, or no explicit tb was given (then the arm can only
+        # have been entered because the attribute exists)
+        if nd.kind != "test":
+            return None
+        if isinstance(nd.ast, ast.Call) and q.call_name(nd.ast) == "hasattr" and [q.src(a) for a in nd.ast.args] == [ep0, "'_traceback'"]:
+            return "T"
+        k_, s_, pos_ = q.atom_test(nd.ast)
+        if k_ == "truth" and s_ == tbp:
+            return "F" if pos_ else "T"
+        if k_ == "isnone" and s_ == tbp:
+            return "T" if pos_ else "F"
+        return None
+    for n in fcfg2.nodes:
+        if n.kind != "stmt":
+            continue
+        for x in ast.walk(n.ast):
+            if isinstance(x, ast.Attribute) and x.attr == "_traceback" and q.src(x.value) == ep0 and isinstance(x.ctx, ast.Load):
+                par = getattr(x, "_parent", None)
+                fallback = isinstance(par, ast.BoolOp) and isinstance(par.op, ast.Or) and par.values[-1] is x and all(q.src(v) == tbp for v in par.values[:-1])
+                if fallback:
+                    okx = kit.path_avoiding_guard(fcfg2, [n], has_tb, N) is None
+                else:
+                    okx = kit.path_avoiding_guard(fcfg2, [n], only_attr, N) is None and kit.path_avoiding_guard(fcfg2, [n], has_tb, N) is None
+                R.check(okx, "C18.FORMAT", fe.qualname + ":attr:" + q.stmt_key(n.ast)[:40], R.site(fe, n.ast),
+                        "%s._traceback is read only where the attribute exists" % ep0,
+                        "%s._traceback is read although only an explicit tb may have been given (`%s`): format_error(e, tb=...) raises AttributeError for an "
+                        "exception that never passed through asynq" % (ep0, q.src(n.ast)[:60]))
     # every path to the end has tb_list defined (the third kind gets an empty list)
     tl_defs = [n for n in fcfg2.nodes if n.kind == "stmt" and isinstance(n.ast, ast.Assign) and "tb_list" in q.names_stored(n.ast)]
     uses = [n for n in fcfg2.nodes if n.kind == "stmt" and "tb_list" in q.names_loaded(n.ast) and n not in tl_defs]
